@@ -18,13 +18,61 @@ LEVEL_TEXT = ("bounded, solver-decided: for every harness the SAT solver shows t
 # property -> (claimed?, level text suffix, level_note, design_ref) or reason for not applicable
 CLAIMED = {
     "C01": dict(
-        text="Header layout/round-trip over all field values at full width, every sync emission route pairwise at small constant payload sizes and all capacity relations.",
-        note="Bounds: payload <= 3 bytes per route instance (sizes are per-instance constants, contents symbolic); async writer and interop fixtures outside. Trusted: Kani/CBMC/CaDiCaL.",
+        text="Header layout and round trip over all field values at full width against an independent spec table; every synchronous emission route (to_vec, write_to, write_message, write_message_streaming, into_wire_bytes) pairwise through that oracle at small constant payload sizes and every body-capacity relation, also into a short-writing sink; builder; parse-back; TCP-vs-WebSocket response framing parity.",
+        note="Bounds: |query| <= 2, |body| <= 3 per route instance (sizes are per-instance constants, contents and all 11 header fields symbolic). Outside: async writers (write_message_async, async_server::write_view_response), payloads larger than the instances, interop fixtures, bytes from running servers.",
         ref="DESIGN.md §4 C01"),
     "C02": dict(
-        text="Parsers and stream readers are total on symbolic hostile bytes with full-width length fields; allocator failure is modelled by a stub.",
-        note="Bounds: buffers <= 56 bytes; stream-reader declared sizes <= 8 bytes or >= 2^62 (never allocatable); dev-profile arithmetic (any reachable overflow is reported). Async readers outside.",
+        text="Header::decode, Message/MessageView::from_slice(_exact) total on fully symbolic buffers (<= 56 bytes, every length incl. wrapping 64-bit sums) with an exact accept/reject oracle; read_message on hostile streams (symbolic contents, truncation, short read, I/O error) and with never-allocatable declared sizes under an allocator-failure stub.",
+        note="Bounds: buffers/streams <= 56 bytes; stream-reader payload sizes are per-instance constants (quick: concrete EOF/short-read shapes; thorough: symbolic EOF + one symbolic short read); declared sizes <= 8 bytes or >= 2^62. Outside: async readers; read_message_into with sizes in [2^62,2^63) (it grows through realloc, which Kani does not let a stub fail; only its capacity-overflow class >= 2^63 is decided); callers in the connection loops. Dev-profile arithmetic: any reachable overflow is reported.",
         ref="DESIGN.md §4 C02"),
+    "C03": dict(
+        text="The shared dispatch core (route, route_request_view, dispatch_view, dispatch, error-response builders, echo rule): response/notify discipline, exactly-once handler invocation, error-code mapping, and equality of the three compositions the transports build (TCP borrowed, WebSocket inline, WebSocket off-reader) for symbolic headers and handler outcomes.",
+        note="PARTIAL: the four connection loops (threads/tokio/sockets), response ordering, pipelines and the concrete built-in handler kinds with real JSON/BEVE bodies are outside; a change confined to a loop is not detected. Query bytes are per-instance constants (UTF-8 validation of symbolic bytes is out of reach); lookup stubbed to '/a registered' (lookup is C07); error text stubbed.",
+        ref="DESIGN.md §4 C03"),
+    "C04": dict(
+        text="Only the schedule-independent safety clause: every client funnels each result through validate_response(expected_id, resp) on its return path; for a fully symbolic response header, Ok implies id == expected (and version, ec), so no call can return another call's response under any interleaving or reply order.",
+        note="PARTIAL (one clause): delivery of the matching response, unknown-id/duplicate/notify routing, batch alignment and id distinctness live in threads/tasks/sockets and are outside; a mutation in a response loop is not detected.",
+        ref="DESIGN.md §4 C04"),
+    "C07": dict(
+        text="Mount prefix/boundary logic on symbolic paths and prefixes (router match vs handler strip agree; /ab not under /a), Router::get precedence on a concrete table with a symbolic path selector, middleware applied exactly once regardless of registration order with execution mode preserved, struct segments = RFC 6901 tokens for symbolic paths incl. the 16-segment stack/heap boundary, owned-vs-borrowed agreement for handlers up to the point a serde parser would run.",
+        note="PARTIAL: strings <= 5 bytes over a 3-5 letter alphabet; routing table concrete (hashing a symbolic key through SipHash/hashbrown is out of reach); serde_json / beve-serde body parsing (accepted formats of JSON/typed/registry/struct handlers) outside; derive macro outside.",
+        ref="DESIGN.md §4 C07"),
+    "C08": dict(
+        text="Bulk path only: bulk encode -> bulk decode is bit-exact for every element bit pattern; streaming writer == buffered builder; aligned form lands the payload on an element boundary of the frame for every query residue 0..8 and survives into_wire_bytes; wrong body format / wrong element type rejected.",
+        note="PARTIAL: identity with the generic serde encoding and cross-decoding through serde are NOT decided (beve's serde walk exhausts memory under CBMC) - that is the first sentence of the property; 2 elements per instance; half floats, complex, client/server routes over sockets outside.",
+        ref="DESIGN.md §4 C08"),
+    "C09": dict(
+        text="Sequential composition ChunkSink -> channel (FIFO contract) -> Session::pull -> chunk_response: concatenation equals the payload, exactly one final chunk, non-final chunks full-size, empty payload = one empty final chunk, for symbolic payload bytes at every boundary residue (instances).",
+        note="PARTIAL: uncompressed only (zstd is a C library); std sync_channel replaced by its FIFO contract with the producer run to completion first (depth/speed independence is the Kahn-determinism argument, trusted); NextHandler's done/release logic (beve + HashMap), the blocking/async/WebSocket pullers and typed/value producers outside; producer-failure path thorough-only.",
+        ref="DESIGN.md §4 C09"),
+    "C10": dict(
+        text="Trailer clauses only: TrailerHold forwards exactly all but the last N bytes for symbolic streams across arbitrary write splits, returns exactly the last N bytes as trailer, and rejects a stream shorter than N without forwarding anything.",
+        note="NARROW: the commit protocol (temp file, last_seen, flush, fsync, rename, TempFile drop), crash points, the real filesystem and the async pullers are outside - std::fs::File/Client values cannot be stepped under Kani; a change to write_file/TempFile is not detected.",
+        ref="DESIGN.md §4 C10"),
+    "C11": dict(
+        text="One arbitrary operation (record_ack, record_sent, advance_to_file, cancel, request_resume, wait_for_credit with expired deadline, the documented producer step) from an arbitrary state satisfying acked <= sent, all values full 64-bit: an inductive step that covers histories of any length.",
+        note="Representation invariant acked <= sent is the only assumption on pre-states (every such state is reachable); chunk <= 2^48; replay ring empty or one chunk (ring semantics are C13). Stubs: symbolic monotone clock, notify counter.",
+        ref="DESIGN.md §4 C11"),
+    "C12": dict(
+        text="By reduction to sequential obligations decided on the real functions: O1 every enabling transition (ack, cancel, advance, resume) issues notify_all and sends/pushes never enable; O2 the real wait_for_credit / wait_for_reconnect loops against a wait_timeout stub that havocs the protected state (arbitrary interference, spurious wake-ups) and a symbolic monotone clock never sleep on a true predicate, sleep exactly until the deadline, and report faithfully; O3 by construction (Mutex<Inner>).",
+        note="The implication O1&O2&O3 => no lost wake-up under any interleaving is the standard monitor argument and, with std Mutex/Condvar semantics, is the TRUSTED base; real thread schedules are not run. Bounds: <= 2 sleeps per wait call, clock in whole seconds, strictly increasing; 1 s tolerance on durations whose deadline std computes with Instant+Duration (Kani leaves those nanoseconds nondeterministic).",
+        ref="DESIGN.md §4 C12"),
+    "C13": dict(
+        text="Ring built by <= 3 pushes with symbolic offsets/logical lengths/wire lengths/capacity compared to a reference eviction model (most recent retained, oldest first, wire-byte bound, byte-identical, contiguous); resume acceptance predicate exact, refused resume changes nothing, accepted resume installs the peer, is delivered once, and replays a gapless byte-identical tail; advance empties ring and discards pending resume.",
+        note="Bounds: histories of <= 3 pushes (quick: 2 for resume), wire bodies <= 2 bytes; offsets assumed not to overflow u64 (documented producer contract).",
+        ref="DESIGN.md §4 C13"),
+    "C14": dict(
+        text="Pointer layer: parse_pointer rejects exactly the RFC 6901-malformed pointers (with the not-found class) and yields the unescaped tokens; canonical_key (borrowed fast path) and canonical_pointer(parse_pointer) (slow path) both equal an independent oracle; escape/unescape round trip; json_pointer::parse = RFC tokens; mounting strips exactly the prefix (shared with C07).",
+        note="PARTIAL: strings <= 3 bytes over {/,~,0,1,a}; the JSON tree semantics (read-your-write, non-interference, root merge), the call/read/write decision over the std HashMap + serde_json, body decoding and linearizability are outside.",
+        ref="DESIGN.md §4 C14"),
+    "C17": dict(
+        text="check_outbound exact over the full usize range; frame_outbound delivers at/below-limit and unlimited messages byte-for-byte unchanged and reports nothing; an oversized notify is dropped and reported once with exact size and limit; create_error_message yields a well-formed error reply.",
+        note="PARTIAL: the oversized-RESPONSE replacement clause is outside (the replacement text is built with format!: the real formatter does not finish under CBMC and with it stubbed Kani reports spurious memory errors on that path; see DESIGN.md); async call sites (writer task, proxy, client pre-send) outside.",
+        ref="DESIGN.md §4 C17"),
+    "C19": dict(
+        text="is_retryable_error in both fleets over all stable io::ErrorKinds and the non-I/O error variants: every kind a dead/refusing/silent node produces through the clients is retryable (so the cached client is invalidated), application/protocol errors never are.",
+        note="PARTIAL: the retry loop itself (attempt bound, stop conditions, invalidate on the last attempt), ensure_connected, tag filtering and broadcast fan-out are outside (they need Client values backed by sockets / tokio); the environment contract D (which kinds a dead node produces) is an assumption validated once natively (findings/C19_idle_close_demo.rs).",
+        ref="DESIGN.md §4 C19"),
 }
 
 NOT_APPLICABLE = {
@@ -32,6 +80,7 @@ NOT_APPLICABLE = {
     "C06": "needs live sockets, reader threads/tasks and timers (fail_all_pending, pending guards racing responses); nothing constructible or steppable under Kani",
     "C15": "tokio tasks, select!, cancellation tokens, real WebSocket streams and unwinding through async frames; no sequential fragment decides the property",
     "C16": "semaphore permits, spawn_blocking and catch_unwind on runtime threads; not executable symbolically",
+    "C18": "every clause runs through three std HashMaps (hashbrown control bytes) under one mutex: merged symbolic operations on them did not finish under CBMC (design probes: 2-3 symbolic ops > 10-15 min), and a per-operation split over concrete states would be enumeration of concrete runs rather than a solver decision; concurrency clauses need threads",
 }
 
 PENDING = "check under construction in this build session (see DESIGN.md §4); not yet claimed"
@@ -67,7 +116,7 @@ def main():
             "guard": "cfg(kani)",
             "enable": "cargo kani sets --cfg kani; checks run `cargo kani --lib -Z stubbing --features websocket,value-stream` in /repo with REPE_VERIF_KANI=/verif/kani, which makes each hooked module include /verif/kani/<module>.rs",
             "baseline_off_cmd": "cd /repo && cargo test --workspace --no-fail-fast --offline",
-            "source_commits": ["698944b"],
+            "source_commits": ["698944b", "e0981ed"],
             "add_only": True,
         },
         "engines": [{
